@@ -3,15 +3,21 @@
    division, index and panicking constructor of fold / stat / view as repaired, with the source site of each) never
    reaches a Panic outcome on any spectrum the readers accept, for every statistic, every shape (axes of length 1 and 2
    included), every option value. What is exercised only: clap, the VCF/BCF decoders (noodles), allocation. *)
-From Sfs Require Import Index Panic IndexP PanicP Npy Text NpyP TextP.
+From Sfs Require Import Index Panic IndexP PanicP Npy Text NpyP TextP ReadOkP.
 From Coq Require Import Sorted.
 
-(* what the readers guarantee (count and no zero-length axis are proved about the reader model; that the shape has at
-   least one axis follows from the grammars: `split` yields at least one field, the npy tuple parser at least one entry) *)
+(* what the readers guarantee for ANY input bytes: an accepted spectrum has at least one axis (the header grammars
+   yield at least one entry), no axis of length zero, and as many values as the product of its shape - exactly the
+   guard [read_ok] under which the panic skeleton is proved panic-free *)
 Theorem C17_accepted_spectrum_is_sane : forall inp sh vals, read_spectrum inp = inl (sh, vals) ->
-  N.of_nat (length vals) = nelements sh /\ existsb (N.eqb 0) sh = false.
-Proof. exact read_spectrum_count. Qed.
+  sh <> [] /\ existsb (N.eqb 0) sh = false /\ N.of_nat (length vals) = nelements sh.
+Proof. exact read_spectrum_ok. Qed.
 Print Assumptions C17_accepted_spectrum_is_sane.
+
+Theorem C17_accepted_spectrum_meets_guard : forall inp sh vals, read_spectrum inp = inl (sh, vals) ->
+  read_ok (map N.to_nat sh) (length vals).
+Proof. exact read_spectrum_read_ok. Qed.
+Print Assumptions C17_accepted_spectrum_meets_guard.
 
 Theorem C17_short_input_is_no_format : forall inp, (length inp < 6)%nat -> detect_format inp = None.
 Proof. exact detect_short. Qed.
